@@ -115,3 +115,65 @@ def norm(x):
     if isinstance(x, dict):
         return {str(k): norm(v) for k, v in x.items()}
     return x
+
+
+# ----------------------------------------------------------------------------- OPEN / NOTIFICATION / ROUTE-REFRESH (C14)
+def open_expected(o, afi_safi_names, addpath_names):
+    """documented output form of Open().parse for the abstract OPEN value o"""
+    caps = {}
+    asn = u32(o['as'])
+    for code, val in o['caps']:
+        val = bytes(val)
+        if code == 1:
+            caps.setdefault('afi_safi', []).append([val[0] * 256 + val[1], val[3]])
+        elif code == 2:
+            caps['route_refresh'] = True
+        elif code == 128:
+            caps['cisco_route_refresh'] = True
+        elif code == 64:
+            caps['graceful_restart'] = True
+        elif code == 131:
+            caps['cisco_multi_session'] = True
+        elif code == 70:
+            caps['enhanced_route_refresh'] = True
+        elif code == 65:
+            caps['four_bytes_as'] = True
+        elif code == 69:
+            lst = caps.setdefault('add_path', [])
+            for k in range(0, len(val), 4):
+                lst.append({'afi_safi': afi_safi_names[(val[k] * 256 + val[k + 1], val[k + 2])], 'send/receive': addpath_names[val[k + 3]]})
+        elif code == 71:
+            lst = caps.setdefault('LLGR', [])
+            for k in range(0, len(val), 7):
+                lst.append({'afi_safi': [val[k] * 256 + val[k + 1], val[k + 2]], 'time': (val[k + 4] << 16) + (val[k + 5] << 8) + val[k + 6]})
+        elif code == 5:
+            lst = caps.setdefault('ext_nexthop', [])
+            for k in range(0, len(val), 6):
+                lst.append({'afi_safi': [val[k] * 256 + val[k + 1], val[k + 2] * 256 + val[k + 3]], 'nexthop_afi': val[k + 4] * 256 + val[k + 5]})
+        else:
+            caps[str(code)] = repr(val)
+    return {'version': o['ver'], 'asn': asn, 'hold_time': o['hold'], 'bgp_id': ip4(o['id']), 'capabilities': caps}
+
+
+def open_construct_input(o):
+    """-> (asn, hold, bgp_id int, my_capability dict) for Open(...).construct"""
+    cap = {}
+    for code, val in o['caps']:
+        val = bytes(val)
+        if code == 1:
+            cap.setdefault('afi_safi', []).append((val[0] * 256 + val[1], val[3]))
+        elif code == 2:
+            cap['route_refresh'] = True
+        elif code == 128:
+            cap['cisco_route_refresh'] = True
+        elif code == 70:
+            cap['enhanced_route_refresh'] = True
+        elif code == 65:
+            cap['four_bytes_as'] = True
+        elif code == 69:
+            cap['add_path'] = {1: 'ipv4_receive', 2: 'ipv4_send', 3: 'ipv4_both'}[val[3]]
+        elif code == 5:
+            cap['ext_nexthop'] = [{'afi_safi': [val[k] * 256 + val[k + 1], val[k + 2] * 256 + val[k + 3]], 'nexthop_afi': val[k + 4] * 256 + val[k + 5]}
+                                  for k in range(0, len(val), 6)]
+    i = o['id']
+    return u32(o['as']), o['hold'], (i[0] << 24) + (i[1] << 16) + (i[2] << 8) + i[3], cap
